@@ -550,3 +550,18 @@ def cmp_(tier, seed, params):
                     for q in qs:
                         out.append("op=map kind=%s n=%d keys=%s q=%s" % (kind, n, "|".join(arr(k) for k in keys), arr(q)))
     return out
+
+
+FILL_NS = list(range(0, 65)) + [96, 127, 128, 129, 255, 256, 257, 511, 512, 513, 1000, 1023, 1024]
+FILL_KINDS = ["u8", "u64", "b3", "slot", "nest"]
+
+
+def fill(tier, seed, params):
+    rng = random.Random(seed)
+    out = []
+    for kind in FILL_KINDS:
+        for n in FILL_NS:
+            out.append("op=const_default kind=%s n=%d" % (kind, n))
+            for _ in range(2 if tier == "quick" else 12):
+                out.append("op=zeroize kind=%s n=%d seed=%d" % (kind, n, rng.randint(0, 10**6)))
+    return out
